@@ -8,6 +8,8 @@ package rollout
 // because the old sequence had it later (or earlier) than the new one.
 
 import (
+	"context"
+
 	"github.com/openkruise/rollouts/api/v1alpha1"
 	"github.com/openkruise/rollouts/api/v1beta1"
 	"github.com/openkruise/rollouts/pkg/trafficrouting"
@@ -15,6 +17,8 @@ import (
 	"github.com/openkruise/rollouts/pkg/verifrt"
 	"github.com/openkruise/rollouts/pkg/verifrt/symclient"
 	metav1 "k8s.io/apimachinery/pkg/apis/meta/v1"
+	"k8s.io/apimachinery/pkg/types"
+	ctrl "sigs.k8s.io/controller-runtime"
 	"sigs.k8s.io/controller-runtime/pkg/client"
 )
 
@@ -168,4 +172,91 @@ func VerifC05_AbortedResetLeavesNoCursorBehind() {
 		verifrt.Assert(calls.count(task) > 0, "C05.abortedReset.everyRestoringTaskStillRuns")
 	}
 	verifrt.Cover("C05.abortedReset.done")
+}
+
+// c05ExitViaReconcile: the same obligation driven through the real Reconcile — the reconcile in which the rollout
+// turns Terminating / Disabling is still dispatched on the phase it had when it was read, so the clean-up of the exit
+// that was under way gets one more pass with the freshly reset cursor before the new exit's own clean-up starts.
+// Whatever that pass leaves behind, once the terminating (disabling) clean-up has been driven to its end every
+// restoring task has run.
+func c05ExitViaReconcile(blueGreen, disable bool, prefix string) {
+	vSimple = true
+	var r *v1beta1.Rollout
+	if blueGreen {
+		r = vBlueGreenRollout(1, 1)
+	} else {
+		r = vCanaryRollout(1, 1)
+	}
+	next := nextCanaryTask
+	if blueGreen {
+		next = nextBlueGreenTask
+	}
+	// the exit that was under way
+	oldReason, condReason := v1beta1.FinaliseReasonRollback, v1alpha1.ProgressingReasonCancelling
+	if verifrt.Bool("earlier.wasCompletion") {
+		oldReason, condReason = v1beta1.FinaliseReasonSuccess, v1alpha1.ProgressingReasonFinalising
+	}
+	r.Status.Conditions[0].Reason = condReason
+	oldSeq := c04Sequence(next, oldReason, prefix)
+	i := verifrt.Concrete(verifrt.IntRange("earlier.tasksDone", 0, len(oldSeq)-1))
+	doneBefore := map[string]bool{}
+	for _, t := range oldSeq[:i] {
+		doneBefore[c04TaskStub(t)] = true
+	}
+	if i > 0 || verifrt.Bool("earlier.cursorAlreadySet") {
+		r.Status.GetSubStatus().FinalisingStep = oldSeq[i]
+	}
+	r.Finalizers = []string{util.KruiseRolloutFinalizer}
+	if disable {
+		r.Spec.Disabled = true
+	} else {
+		now := metav1.Now()
+		r.DeletionTimestamp = &now
+	}
+	cli := &symclient.Client{Objects: []client.Object{r}}
+	cli.ApplyFn = func(w symclient.Write) {
+		if ro, ok := w.Obj.(*v1beta1.Rollout); ok && (w.Verb == "status-update" || w.Verb == "update") {
+			cli.Objects = []client.Object{ro.DeepCopy()}
+		}
+	}
+	calls := &vCalls{}
+	c05StubAllTasksSucceed(calls)
+	rec := c10Reconciler(cli)
+	gvk := util.GetGVKFrom(&r.Spec.WorkloadRef)
+	watchedWorkload.Store(gvk.String(), struct{}{})
+	req := ctrl.Request{NamespacedName: types.NamespacedName{Namespace: r.Namespace, Name: r.Name}}
+	done := false
+	for k := 0; k < 16 && !done; k++ {
+		if _, err := rec.Reconcile(context.TODO(), req); err != nil {
+			return
+		}
+		cur, _ := cli.Objects[0].(*v1beta1.Rollout)
+		if disable {
+			done = cur.Status.Phase == v1beta1.RolloutPhaseDisabled
+		} else {
+			cond := util.GetRolloutCondition(cur.Status, v1beta1.RolloutConditionTerminating)
+			done = cond != nil && cond.Reason == v1alpha1.TerminatingReasonCompleted
+		}
+	}
+	verifrt.Assert(done, prefix+".cleanupTerminates")
+	if !done {
+		return
+	}
+	for _, task := range []string{stubRestoreGateway, stubRestoreStableService, stubRemoveCanaryService, stubFinalizingBatchRelease, stubRemoveBatchRelease} {
+		verifrt.Assert(doneBefore[task] || calls.count(task) > 0, prefix+".noRestoringTaskLostWhenTheExitReasonChanges")
+	}
+	verifrt.Cover(prefix + ".done")
+}
+
+func VerifC05_CanaryDeletionDuringAnotherCleanupViaReconcile() {
+	c05ExitViaReconcile(false, false, "C05.canary.reasonChange.reconcile")
+}
+func VerifC05_BlueGreenDeletionDuringAnotherCleanupViaReconcile() {
+	c05ExitViaReconcile(true, false, "C05.bluegreen.reasonChange.reconcile")
+}
+func VerifC05_CanaryDisableDuringAnotherCleanupViaReconcile() {
+	c05ExitViaReconcile(false, true, "C05.canary.reasonChange.reconcile.disable")
+}
+func VerifC05_BlueGreenDisableDuringAnotherCleanupViaReconcile() {
+	c05ExitViaReconcile(true, true, "C05.bluegreen.reasonChange.reconcile.disable")
 }
